@@ -354,9 +354,23 @@ def check_r08e(repo, rep):
                     bad.append(r)
         site = m.key
         if bad and site in R08E_EXCEPTIONS:
-            rep.ob('R08e', site, True, 'reviewed exception: ' +
-                   R08E_EXCEPTIONS[site])
-            continue
+            # only returns guarded by `isinstance(value, datetime.datetime)`
+            def guarded(r):
+                i = model.enclosing(r.ast, ast.If)
+                while i is not None:
+                    t = i.test
+                    if isinstance(t, ast.Call) and isinstance(
+                            t.func, ast.Name) and t.func.id == 'isinstance' \
+                            and len(t.args) == 2 and repo.resolve(
+                                m.module, t.args[1]) == 'datetime.datetime':
+                        return True
+                    i = model.enclosing(i, ast.If)
+                return False
+            bad = [b for b in bad if not guarded(b)]
+            if not bad:
+                rep.ob('R08e', site, True, 'reviewed exception: ' +
+                       R08E_EXCEPTIONS[site])
+                continue
         rep.ob('R08e', site, not bad,
                'converter returns %s on a path that never reaches '
                'SmartType.convert (argument quota not applied)' % (
